@@ -41,12 +41,14 @@ vars == <<st, hist, rq, resp>>
 CurTag(c, n) == IF IsLive(st, c, n) THEN st.store[c][n] ELSE NoTag
 
 \* conditional-header alphabet relative to the current state (C03):
-\* absent, *, current, a stale/other validator, {other, current} list.
+\* absent, *, current, a stale/other validator, {other, current} list, and a header that is
+\* present but lists nothing (an empty value).
 Conds(c, n) ==
     LET cur == CurTag(c, n)
         oth == CHOOSE b \in Body : b # cur
     IN  {NoCond,
          [present |-> TRUE, star |-> TRUE,  tags |-> {}],
+         [present |-> TRUE, star |-> FALSE, tags |-> {}],
          [present |-> TRUE, star |-> FALSE, tags |-> {oth}]}
         \cup (IF cur = NoTag THEN {}
               ELSE {[present |-> TRUE, star |-> FALSE, tags |-> {cur}],
